@@ -45,7 +45,7 @@ def build(repo):
         maybe_collision is Some ==> exists|i: int| 0 <= i < idents@.len() && hit(&input, #[trigger] idents@[i]) == maybe_collision,
         decreases children.items@.len() - verif_k,"""
     b = translate(frag, [
-        Rule("R1", "let file_name = & input . user_data ( ) . get_file_name ( ) ;", "", why="file name only feeds diagnostics"),
+        Rule("R1", "let file_name = & input . user_data ( ) . $m ( ) ;", "", why="file name only feeds diagnostics (which name: unit c03_diag_file)"),
         Rule("R6", "input . as_span ( )", "as_span ( & input )", why="pest API abstract"),
         Rule("R6", "child . as_span ( )", "as_span ( & child )", why="pest API abstract"),
         Rule("R3", "return Err ( vec ! [ new_err ( $$a ) ] ) ;", "return Err ( VErr ) ;", why="diagnostic construction dropped"),
